@@ -17,7 +17,7 @@ from fractions import Fraction
 import numpy as np
 import z3
 
-from .poly import Normaliser, Poly, RF, TooBig, ONE
+from .poly import Normaliser, Poly, RF, TooBig, ONE, rf_as_monomial
 
 
 class Abort(BaseException):
@@ -108,6 +108,7 @@ class Ctx:
         self.atoms = []            # (key, term, rf) for log10 atoms
         self.fnapps = {}           # fname -> list of (arg_rf, arg_term, result SR)
         self.k10 = {}              # Fraction in [0,1) -> z3 var
+        self.p10inv = {}           # id of an opaque 10**x variable -> (var, x)
         self.nforks = 0
         if mode == 'sym':
             self.solver = z3.Solver()
@@ -490,6 +491,8 @@ class SR:
                 for a, co in atoms.values():
                     if a.c is not None:
                         s = s + zval(co) * zval(frac(math.log10(float(a.c))))
+                    elif a._t is not None and a._t.get_id() in CTX.p10inv:
+                        s = s + zval(co) * CTX.p10inv[a._t.get_id()][1].t
                     else:
                         s = s + zval(co) * a.l10var()
                 self._t = s
@@ -672,6 +675,7 @@ class SR:
             v = ctx.fresh('p10')
             ctx.solver.add(v > 0)
             ctx.positive.add(v.get_id())
+            ctx.p10inv[v.get_id()] = (v, s)       # log10 of this variable is exactly s
             return SR(t=v)
         return ctx.fn_app('exp10', s, mk)
 
@@ -710,10 +714,9 @@ class SR:
             rf = ctx.rf(s.t).reduce_monomials()
         except TooBig:
             rf = None
-        if rf is not None and len(rf.n) == 1 and len(rf.d) == 1:
-            (mn, cn), = rf.n.m.items()
-            (md, cd), = rf.d.m.items()
-            coef = cn / cd
+        mono = rf_as_monomial(rf) if rf is not None else None
+        if mono is not None:
+            coef, mn, md = mono
             if coef > 0 and all(v in ctx.positive for v, _ in mn + md):
                 atoms = {}
                 for mono, sg in ((mn, 1), (md, -1)):
@@ -867,6 +870,10 @@ class SR:
         d = s - o
         if d.c is not None:
             return op(d.c, 0)
+        if d.ll is not None and all(a.c is None and a._t is not None and a._t.get_id() in ctx.p10inv
+                                    for a, _ in d.ll[0].values()):
+            # every atom is log10 of an opaque 10**x: the value is linear in the x's
+            return SR(t=d.t)._cmp_rf(SR(c=Fraction(0)), opn)
         if d.ll is not None:
             # sign of  k + sum c_j log10(A_j)  ==  sign of  log10(10^k * prod A_j^c_j): compare products
             atoms, k = d.ll
